@@ -159,10 +159,27 @@ func c15ExactFirst(c *Check, a *Anchors) {
 			}
 		}
 		info := gt.Info()
+		// the hit list(s): the slices the alias scan appends to (names, or the tasks themselves)
+		hitVars := map[*types.Var]bool{}
+		if aliasLoop != nil {
+			inspectBody(aliasLoop.Body, func(m ast.Node) bool {
+				if as, ok := m.(*ast.AssignStmt); ok && len(as.Lhs) == 1 && len(as.Rhs) == 1 {
+					if call, ok := ast.Unparen(as.Rhs[0]).(*ast.CallExpr); ok && isBuiltin(aliasInfo, call, "append") {
+						if v := varOf(aliasInfo, as.Lhs[0]); v != nil {
+							hitVars[v] = true
+						}
+					}
+				}
+				return true
+			})
+		}
 		lenOf := func(e ast.Expr) bool {
 			call, ok := ast.Unparen(e).(*ast.CallExpr)
 			if !ok || !isBuiltin(info, call, "len") || len(call.Args) != 1 {
 				return false
+			}
+			if v := varOf(info, call.Args[0]); v != nil && hitVars[v] {
+				return true
 			}
 			tv, ok := info.Types[call.Args[0]]
 			return ok && types.TypeString(tv.Type, nil) == "[]string"
@@ -391,19 +408,27 @@ func c15PatternLiteral(c *Check, a *Anchors) {
 	// provenance of the string handed to the regexp compiler: constants, QuoteMeta'd values, or raw pieces of the name
 	nCompile := 0
 	var pieces []rxPiece
-	inspectBody(fb.Body, func(nd ast.Node) bool {
-		call, ok := nd.(*ast.CallExpr)
-		if !ok {
+	// the compile site: in WildcardMatch, or in the helper of the package it obtains the regexp from
+	group := c.P.groupOf(fb, 1)
+	compileFb := fb
+	for _, g := range group {
+		ginfo := g.Info()
+		inspectBody(g.Body, func(nd ast.Node) bool {
+			call, ok := nd.(*ast.CallExpr)
+			if !ok {
+				return true
+			}
+			fn, ok := callee(ginfo, call).(*types.Func)
+			if !ok || fn.Pkg() == nil || fn.Pkg().Path() != "regexp" || !(fn.Name() == "MustCompile" || fn.Name() == "Compile") {
+				return true
+			}
+			nCompile++
+			compileFb = g
+			c.Fn(g)
+			pieces = rxProvenance(ginfo, g, call.Args[0], 0)
 			return true
-		}
-		fn, ok := callee(info, call).(*types.Func)
-		if !ok || fn.Pkg() == nil || fn.Pkg().Path() != "regexp" || !(fn.Name() == "MustCompile" || fn.Name() == "Compile") {
-			return true
-		}
-		nCompile++
-		pieces = rxProvenance(info, fb, call.Args[0], 0)
-		return true
-	})
+		})
+	}
 	raw, nQuoted := "", 0
 	var consts []string
 	for _, p := range pieces {
@@ -417,9 +442,23 @@ func c15PatternLiteral(c *Check, a *Anchors) {
 		}
 	}
 	splitOnStar := false
-	inspectBody(fb.Body, func(nd ast.Node) bool {
-		if call, ok := nd.(*ast.CallExpr); ok && isFunc(callee(info, call), "strings", "", "Split") && len(call.Args) == 2 && fieldSel(info, call.Args[0], PkgAst, "Task", "Task") && constIs(info, call.Args[1], `"*"`) {
-			splitOnStar = true
+	cinfo := compileFb.Info()
+	inspectBody(compileFb.Body, func(nd ast.Node) bool {
+		if call, ok := nd.(*ast.CallExpr); ok && isFunc(callee(cinfo, call), "strings", "", "Split") && len(call.Args) == 2 && constIs(cinfo, call.Args[1], `"*"`) {
+			if fieldSel(cinfo, call.Args[0], PkgAst, "Task", "Task") {
+				splitOnStar = true
+			} else if pv := varOf(cinfo, call.Args[0]); pv != nil && compileFb != fb && isParamOf(cinfo, compileFb, pv) {
+				// the helper's parameter: bound to the task's name at the call in WildcardMatch
+				for _, hc := range callsIn(fb, false) {
+					if a.is(callee(info, hc), compileFb) {
+						for _, arg := range hc.Args {
+							if fieldSel(info, arg, PkgAst, "Task", "Task") {
+								splitOnStar = true
+							}
+						}
+					}
+				}
+			}
 		}
 		return true
 	})
@@ -684,6 +723,55 @@ func rxProvenance(info *types.Info, fb *FuncBody, e ast.Expr, depth int) []rxPie
 					}
 				}
 				return out
+			}
+		case fn != nil && fn.Pkg() != nil && fn.Pkg().Path() == "strings" && fn.Name() == "String" && recvName(fn.Type().(*types.Signature).Recv().Type()) == "Builder":
+			// sb.String(): everything written to the local builder, in source order
+			if sel, ok := ast.Unparen(x.Fun).(*ast.SelectorExpr); ok {
+				if sb := varOf(info, sel.X); sb != nil && !sb.IsField() {
+					var out []rxPiece
+					okAll := true
+					inspectBody(fb.Body, func(nd ast.Node) bool {
+						wc, ok := nd.(*ast.CallExpr)
+						if !ok {
+							return true
+						}
+						ws, ok := ast.Unparen(wc.Fun).(*ast.SelectorExpr)
+						if !ok || varOf(info, ws.X) != sb {
+							// the builder handed to something else (fmt.Fprintf(&sb, ...)): not followed
+							for _, arg := range wc.Args {
+								arg = ast.Unparen(arg)
+								if u, ok := arg.(*ast.UnaryExpr); ok && u.Op == token.AND {
+									arg = ast.Unparen(u.X)
+								}
+								if varOf(info, arg) == sb {
+									okAll = false
+								}
+							}
+							return true
+						}
+						switch ws.Sel.Name {
+						case "WriteString":
+							out = append(out, rxProvenance(info, fb, wc.Args[0], depth+1)...)
+						case "WriteByte", "WriteRune":
+							if v := constText(info, wc.Args[0]); v != "" {
+								if n, err := strconv.Atoi(v); err == nil {
+									out = append(out, rxPiece{"const", string(rune(n))})
+								} else {
+									out = append(out, rxPiece{"const", v})
+								}
+							} else {
+								out = append(out, rxPiece{"raw", exprStr(wc.Args[0])})
+							}
+						case "String", "Len", "Grow", "Cap":
+						default:
+							okAll = false
+						}
+						return true
+					})
+					if okAll && len(out) > 0 {
+						return out
+					}
+				}
 			}
 		case fn != nil && fn.Pkg() != nil && fn.Pkg().Path() == "strings" && fn.Name() == "Join" && len(x.Args) == 2:
 			elems := rxSliceProvenance(info, fb, x.Args[0], depth+1)
